@@ -41,7 +41,7 @@ func runC19(c *Ctx) {
 		}
 		nRemove++
 		fn := e.Fn
-		path := describe(argsOf(e.Call)[0])
+		path := describeArg(e.Call, 0)
 		// path = Join([dir, entry.Name()])
 		okPath := strings.HasPrefix(path, "path/filepath.Join([") && strings.Contains(path, "DirEntry).Name(") && strings.Contains(path, "os.ReadDir(")
 		r.Check("C19.clean-effects", "clean/removed path is a listed entry of the swept directory", m.Pos(e.Call.Pos()), okPath, "got "+path)
@@ -86,7 +86,7 @@ func runC19(c *Ctx) {
 	for _, cs := range callsIn(rot, "fmt.Sprintf") {
 		f, _ := constOf(argsOf(cs)[0])
 		if strings.HasSuffix(f, ".%s.count") {
-			d := describe(argsOf(cs)[1])
+			d := describeArg(cs, 1)
 			okRot = strings.HasSuffix(strings.TrimSuffix(d, "]"), fmt.Sprintf("%q", fileVersion))
 		}
 	}
@@ -101,12 +101,12 @@ func runC19(c *Ctx) {
 	r.Check("C19.suffix-agreement", "findWork/counter file suffix", m.Pos(fw.Pos()), okFW, "the uploader selects counter files by "+countSuffix)
 	cr := m.Func("internal/upload", "uploader.createReport")
 	for _, cs := range callsIn(cr, "internal/upload.exclusiveWrite") {
-		d := describe(argsOf(cs)[0])
+		d := describeArg(cs, 0)
 		r.Check("C19.suffix-agreement", "createReport/report name ends in .json", m.Pos(cs.Pos()), strings.HasSuffix(d, `".json")])`) && strings.Contains(d, "LocalDir("), "got "+d)
 	}
 	urc := m.Func("internal/upload", "uploader.uploadReportContents")
 	for _, cs := range callsIn(urc, "os.WriteFile") {
-		d := describe(argsOf(cs)[0])
+		d := describeArg(cs, 0)
 		r.Check("C19.suffix-agreement", "uploadReportContents/marker name ends in .json", m.Pos(cs.Pos()), strings.HasSuffix(d, `".json")])`) && strings.Contains(d, "UploadDir("), "got "+d)
 	}
 	// complement: every other constant file name joined with LocalDir()/UploadDir() in library code matches no clean suffix
@@ -331,6 +331,29 @@ func suffixGuard(v ssa.Value, seen map[ssa.Value]bool) bool {
 	case *ssa.Call:
 		if calleeName(&x.Call) == "strings.HasSuffix" {
 			return isEntryName(argsOf(x)[0])
+		}
+		// slices.ContainsFunc(suffixes, pred) / slices.IndexFunc(…) >= 0 is handled by its caller;
+		// ContainsFunc is true only if pred(element) was true for some element: the predicate must
+		// be a literal whose every non-false result is HasSuffix(entry name, its parameter)
+		if strings.HasPrefix(calleeName(&x.Call), "slices.ContainsFunc") {
+			pf := funcValue(argsOf(x)[1])
+			if pf == nil || len(pf.Params) != 1 {
+				return false
+			}
+			for _, b := range pf.Blocks {
+				ret, ok := b.Instrs[len(b.Instrs)-1].(*ssa.Return)
+				if !ok || len(ret.Results) != 1 {
+					continue
+				}
+				if k, isC := constOf(ret.Results[0]); isC && k == "false" {
+					continue
+				}
+				c2, isCall := strip(ret.Results[0]).(*ssa.Call)
+				if !isCall || calleeName(&c2.Call) != "strings.HasSuffix" || !isEntryName(argsOf(c2)[0]) || argsOf(c2)[1] != ssa.Value(pf.Params[0]) {
+					return false
+				}
+			}
+			return true
 		}
 		f := x.Call.StaticCallee()
 		if f == nil || f.Blocks == nil {
